@@ -44,3 +44,18 @@ Theorem C15_home_only : forall pol s u,
   exists n, u = Some n /\ lookup s [n] = None /\ ensure_home pol s u = set_coll s [n] (mkColl TNone [] []).
 Proof. exact ensure_home_only_home. Qed.
 Print Assumptions C15_home_only.
+
+(* Consequences for names, after any history (with C15_history): the parent of every collection is a plain collection
+   without items -- so no name denotes an item and a collection at once -- and an item never has a collection as sibling. *)
+Require RV.Proofs.C15Names.
+
+Theorem C15_parent_plain_and_empty : forall s, store_inv s ->
+  forall p c, lookup s p = Some c -> p <> [] ->
+  exists pc, lookup s (parent p) = Some pc /\ c_tag pc = TNone /\ c_items pc = [].
+Proof. exact RV.Proofs.C15Names.parent_of_collection_is_plain_and_empty. Qed.
+Print Assumptions C15_parent_plain_and_empty.
+
+Theorem C15_item_has_no_collection_sibling : forall s, store_inv s ->
+  forall p pc o, resolve s p = NItem pc o -> forall q c, lookup s q = Some c -> q <> [] -> parent q <> parent p.
+Proof. exact RV.Proofs.C15Names.item_has_no_collection_sibling. Qed.
+Print Assumptions C15_item_has_no_collection_sibling.
